@@ -227,10 +227,13 @@ class Script:
         else:
             self.commands.append((name, sx[1:]))
 
-    def active_assertions_at_checks(self):
-        """list (one per check-sat) of lists of (term idx, name) active at that check"""
+    def active_assertions_at_checks(self, rejected=()):
+        """list (one per check-sat) of lists of (term idx, name) active at that check; commands whose index is in
+        `rejected` (the solver answered them with an error) have no effect"""
         stack, out = [[]], []
-        for name, p in self.commands:
+        for ci, (name, p) in enumerate(self.commands):
+            if ci in rejected and name != "check-sat":
+                continue
             if name == "assert":
                 stack[-1].append(p)
             elif name == "push":
